@@ -111,6 +111,7 @@ def step (s : St) (line : String) : St × String :=
   match fields line with
   | ["reset"] => (Lifecycle.init, "ok")
   | ["reset", ns] => ({ Lifecycle.init with now := ns.toNat?.getD 0 }, "ok")
+  | ["reset", ns, selfHex] => ({ Lifecycle.init with now := ns.toNat?.getD 0, self := (nameOf selfHex).getD "" }, "ok")
   | ["noop"] => (s, "skip")
   | ["time", ns] =>
     match ns.toNat? with
